@@ -60,6 +60,11 @@ FUNCS = [
     ("metadata_doc", "gapic/schema/metadata.py", "Metadata.doc", [],
      {"subst": {"self.documentation.leading_comments": ("leading", "Str"), "self.documentation.trailing_comments": ("trailing", "Str"),
                 "self.documentation.leading_detached_comments": ("detached", "ListStr")}, "ret": "Str"}),
+    ("field_name", "gapic/schema/wrappers.py", "Field.name", [],
+     {"subst": {"self.field_pb.name": ("pb_name", "Str"), "self.meta.address.is_proto_plus_type": ("is_proto_plus_type", "Bool")}}),
+    ("method_void", "gapic/schema/wrappers.py", "Method.void", [], {"subst": {"self.output.ident.proto": ("output_proto", "Str")}}),
+    ("service_client_package_version", "gapic/schema/wrappers.py", "Service.client_package_version", [],
+     {"subst": {"self.meta.address.package": ("package", "ListStr")}}),
     ("import_str", "gapic/schema/imp.py", "Import.__str__", [("alias", "Str"), ("module", "Str"), ("package", "ListStr")]),
     ("service_shortname", "gapic/schema/wrappers.py", "Service.shortname", [("host", "Str")]),
     ("naming_long_name", "gapic/schema/naming.py", "Naming.long_name", [("namespace", "ListStr"), ("name", "Str")]),
